@@ -921,17 +921,17 @@ fn assumptions_of(prop: &str) -> Vec<&'static str> {
 fn expected_probes(prop: &str) -> Vec<&'static str> {
     match prop {
         "C06" => vec![
-            "c06.hard_fired", "c06.eof_fired", "c06.outcome_A", "c06.outcome_B", "c06.benign_runs", "c06.str_vs_slice", "read.short_reads", "read.interrupts_fired",
+            "c06.hard_fired", "c06.eof_fired", "read_fault_payload.custom", "read_fault_payload.bare", "read_fault_payload.raw_os_error", "c06.history_differential_runs", "c06.long_token_scenarios", "c06.outcome_A", "c06.outcome_B", "c06.benign_runs", "c06.str_vs_slice", "read.short_reads", "read.interrupts_fired",
             "fault_at.between", "fault_at.comment", "fault_at.string-body", "fault_at.string-escape", "fault_at.utf8-tail", "fault_at.after-hash", "fault_at.in-token",
             "fault_at.token-end", "fault_at.after-open", "fault_at.after-close", "fault_at.after-quote", "fault_at.after-dot", "fault_at.at-end",
         ],
         "C07" => vec![
-            "c07.hard_fired", "c07.zero_fired", "c07.interrupt_runs", "c07.benign_runs", "c07.twin_runs", "c07.passthrough_ops", "c07.history_fault_ops", "c07.display_failed_sink", "write.short_writes",
+            "c07.hard_fired", "c07.zero_fired", "write_fault_payload.custom", "write_fault_payload.bare", "write_fault_payload.raw_os_error", "c07.big_value_scenarios", "c07.interrupt_runs", "c07.benign_runs", "c07.twin_runs", "c07.passthrough_ops", "c07.history_fault_ops", "c07.display_failed_sink", "write.short_writes",
             "write_fault_in.integer-digits", "write_fault_in.float", "write_fault_in.string-fragment", "write_fault_in.string-escape", "write_fault_in.paren", "write_fault_in.sigil", "write_fault_in.symbol",
         ],
         "C19" => vec!["c19.prefix_ok", "c19.prefix_eof", "c19.trunc_texts", "c19.receiver_runs", "c19.receiver_waits", "c19.monitor_runs", "errors.io", "errors.syntax", "errors.eof"],
-        "C12" => vec!["c12.queue_runs", "c12.trivia_runs", "c12.mode_agreement_runs", "c12.fault_in_history", "c12.config_strict", "c12.config_faulty", "hist.any_benign_runs"],
-        "C03" => vec!["hist.any_benign_runs", "hist.any_faulty_runs", "c03.deep_runs", "c03.storm_runs", "c03.storm_conclusive", "errors.io", "errors.syntax", "errors.eof"],
+        "C12" => vec!["c12.storm_text_runs", "c12.queue_runs", "c12.trivia_runs", "c12.mode_agreement_runs", "c12.fault_in_history", "c12.config_strict", "c12.config_faulty", "hist.any_benign_runs"],
+        "C03" => vec!["hist.any_benign_runs", "hist.any_faulty_runs", "c03.deep_runs", "c03.storm_runs", "c03.storm_conclusive", "c03.storm_overdeep_probe_reached", "c03.long_token_runs", "c03.single_shot_runs", "errors.io", "errors.syntax", "errors.eof"],
         "C17" => vec!["hist.any_benign_runs", "hist.any_faulty_runs", "c17.printer_checks", "hook.site0", "hook.site1", "hook.site2", "hook.site3"],
         _ => vec![],
     }
